@@ -41,7 +41,7 @@ def events(r, kind=None, base=0.0, max_n=24, span=None):
         step = r.choice([24, 32, 40, 48, 64])
         start = b + r.randrange(0, 128)
         j = r.choice([1, 2, 4, 8])
-        return _sorted_arr([(start + i * step + r.randrange(-j, j + 1)) / Q
+        return _sorted_arr([max(b, start + i * step + r.randrange(-j, j + 1)) / Q
                             for i in range(n)])
     if kind == "dups":
         step = r.choice([16, 32, 64])
@@ -97,21 +97,28 @@ def related_events(r, ref, base=0.0):
     return ref.copy()
 
 
-def boundaries(r, n=None, start=0, total=None, min_len=1):
-    """Sorted lattice boundaries (ints in 1/64 s) of a contiguous segmentation."""
+def boundaries(r, n=None, start=0, total=None, min_len=1, step=2):
+    """Sorted lattice boundaries (ints in 1/64 s) of a contiguous segmentation.
+
+    All boundaries are multiples of ``step``/64 s: with step=2 (1/32 s) every
+    boundary has at most 5 decimals, so the documented 5-decimal rounding of
+    util.intervals_to_boundaries leaves the lattice exact."""
     n = n or r.randrange(1, 9)
     total = total or r.randrange(max(n * min_len, 32), 64 * 30)
-    if n == 1:
+    st = max(1, step)
+    start = (start // st) * st
+    total = max(st, (total // st) * st)
+    ml = max(1, -(-min_len // st))  # in steps
+    units = total // st
+    if n == 1 or units < 2 * ml:
         return [start, start + total]
     cuts = set()
     tries = 0
     while len(cuts) < n - 1 and tries < 1000:
         tries += 1
-        c = r.randrange(min_len, total - min_len + 1) if total > 2 * min_len else None
-        if c is None:
-            break
-        cuts.add(c)
-    bs = [0] + sorted(cuts) + [total]
+        cuts.add(r.randrange(ml, units - ml + 1))
+    bs = [0] + sorted(c * st for c in cuts) + [total]
+    bs = sorted(set(bs))
     return [start + b for b in bs]
 
 
